@@ -36,8 +36,10 @@ def load_model(cfg, workers=4):
     return r, progs, cases
 
 
-def key(prog, bps, cmds):
-    return (prog, tuple(sorted(bps)), tuple(cmds))
+def key(prog, bps, cmds, reqs=()):
+    # two-file sessions are identified by their whole request history, not only by the set in force
+    rk = tuple((q["f"], tuple(sorted(q["ls"]))) for q in reqs) if prog == 5 else ()
+    return (prog, tuple(sorted(bps)), tuple(cmds), rk)
 
 
 def run(tier):
@@ -49,15 +51,17 @@ def run(tier):
     dev_r, _, dev = load_model("Dap_qg.cfg" if tier == "quick" else "Dap_tg.cfg", 4 if tier == "quick" else 12)
     if len(ideal) < 300:
         raise C.ToolError("too few behaviours: %d" % len(ideal))
-    ideal_by = {key(c["prog"], c["bps"], c["cmds"]): c for c in ideal}
-    dev_by = {key(c["prog"], c["bps"], c["cmds"]): c for c in dev}
-    rows = [{"progs": [p["ast"] for p in progs]}]
+    ideal_by = {key(c["prog"], c["bps"], c["cmds"], c["reqs"]): c for c in ideal}
+    dev_by = {key(c["prog"], c["bps"], c["cmds"], c["reqs"]): c for c in dev}
+    rows = [{"progs": [p["ast"] for p in progs], "libs": [p["lib"] for p in progs]}]
     drive = {}
     for c in ideal + dev:
-        k = key(c["prog"], c["bps"], c["cmds"])
+        k = key(c["prog"], c["bps"], c["cmds"], c["reqs"])
         drive[k] = c
+    if not any(c["prog"] == 5 and len(c["reqs"]) >= 2 and c["stops"] for c in ideal):
+        raise C.ToolError("vacuous: no two-file session with several requests and a stop")
     for i, (k, c) in enumerate(sorted(drive.items(), key=lambda kv: json.dumps(kv[0]))):
-        rows.append({"id": "c18#%d" % i, "prog": c["prog"], "bps": c["bps"], "cmds": c["cmds"]})
+        rows.append({"id": "c18#%d" % i, "prog": c["prog"], "bps": c["bps"], "cmds": c["cmds"], "reqs": c["reqs"] if c["prog"] == 5 else []})
     cp, op = os.path.join(wd, "cases.ndjson"), os.path.join(wd, "out.ndjson")
     C.ndjson_write(cp, rows)
     rc, _, err = C.run_vh(["replay", "dap", cp, op], check=False, timeout=3000)
@@ -71,6 +75,10 @@ def run(tier):
         for c in ideal:
             if c["prog"] == pi + 1:
                 for b in c["bps"]:
+                    if b > 100:
+                        if "emit(" not in outs[0]["libs"][pi].splitlines()[b - 101]:
+                            raise C.ToolError("line numbering of Dap.tla and the printer disagree (lib of prog %d line %d)" % (pi + 1, b))
+                        continue
                     if "emit(" not in lines[b - 1]:
                         raise C.ToolError("line numbering of Dap.tla and the printer disagree (prog %d line %d)" % (pi + 1, b))
     by = {o["id"]: o for o in outs[1:]}
@@ -84,6 +92,11 @@ def run(tier):
             break
         r = o["res"]
         case = {"src": srcs[row["prog"] - 1], "bps": row["bps"], "cmds": row["cmds"], "observed": r}
+        if row["prog"] == 5:
+            case["lib_src"] = outs[0]["libs"][4]
+            case["requests"] = row["reqs"]
+            base["requests"] = len(row["reqs"])
+            base["last_request_empty"] = not row["reqs"][-1]["ls"]
         if r["status"] != "ok":
             verdict.disagree(dict(base, what=r["status"]), case)
             continue
@@ -111,7 +124,7 @@ def run(tier):
             qi += 1
         if any(c != "continue" for c in issued):
             with_steps += 1
-        k = key(row["prog"], row["bps"], issued)
+        k = key(row["prog"], row["bps"], issued, row["reqs"])
         m = ideal_by.get(k)
         if m is not None and [s["line"] for s in m["stops"]] == got:
             # stops agree with the property's model: now the variables shown at each stop
